@@ -9,7 +9,7 @@ from vlib.cond import Cond, P
 from trees import transform, treeinput, treeanalysis, grammar, grammaroutput, transitions
 from harness import stubs, c01
 from harness.symtree import e1_params, e1_get, e1_wf_expr, wf
-from harness.formats import enc_export, enc_brackets, enc_tiger, spec_e1
+from harness.formats import enc_export, enc_brackets, enc_tiger, spec_e1, decode_file
 
 FUNCS = ["transform.run", "treeanalysis.run", "grammar.run", "transitions.run", "transform.insert_terminals",
          "transform.substitute_terminals", "transform.binarize", "transform.mark_heads_by_rules", "treeinput.*",
@@ -211,23 +211,20 @@ def _run_a(a, sents, tag):
     stubs.install()
     stubs.put("c.export", enc_export(sents))
     d = "a" + tag
-    if a in (0, 1, 3):
+    def dec(fmt):
+        items, prob = decode_file(fmt, stubs.get(d))
+        if prob:
+            raise ValueError("%s output does not decode: %s" % (fmt, prob))
+        return ("text", items)
+    if a in (0, 1, 2, 3):
         transform.run(_targs("c.export", d, "export", AOPS[a]))
-        return ("text", stubs.get(d))
-    if a == 2:
-        transform.run(_targs("c.export", d, "export", "tigerxml"))
-        t = stubs.get(d)
-        pre = "<?xml version='1.0' encoding='utf-8'?>\n<corpus>\n<body>\n"
-        post = "</body>\n</corpus>"
-        if not (t.startswith(pre) and t.endswith(post)):
-            raise ValueError("TIGER-XML framing")
-        return ("text", t[len(pre):len(t) - len(post)])
+        return dec(AOPS[a])
     if a == 4:
         transform.run(_targs("c.export", d, "export", "export", ["root_attach", "negra_mark_heads", "boyd_split", "raising"]))
-        return ("text", stubs.get(d))
+        return dec("export")
     if a == 5:
         transform.run(_targs("c.export", d, "export", "discobrackets", ["negra_mark_heads", "binarize"], dest_opts=["mark_heads_marking"]))
-        return ("text", stubs.get(d))
+        return dec("discobrackets")
     if a == 6:
         treeanalysis.run(argparse.Namespace(src="c.export", task="GapDegree", src_format="export", src_enc="utf-8", src_opts=["quiet"]))
         text = stubs.SYS.stdout.text()
